@@ -23,6 +23,7 @@ use crate::ast::PrefixOperator;
 use crate::env::Env;
 use crate::token::Term;
 use crate::token::Value;
+use crate::token::parse_integer_constant;
 use std::ops::Range;
 use thiserror::Error;
 
@@ -75,6 +76,18 @@ pub struct Error<E1, E2> {
     pub location: Range<usize>,
 }
 
+/// Parses a variable value as an integer constant with an optional sign.
+///
+/// The constant is interpreted in the same way as a constant appearing in an
+/// expression, so `$((x))` and `$(($x))` agree.
+fn parse_variable_value(value: &str) -> Option<i64> {
+    let (negative, constant) = match value.strip_prefix('-') {
+        Some(constant) => (true, constant),
+        None => (false, value.strip_prefix('+').unwrap_or(value)),
+    };
+    parse_integer_constant(constant, negative)
+}
+
 /// Expands a variable to its value.
 fn expand_variable<E: Env>(
     name: &str,
@@ -83,10 +96,10 @@ fn expand_variable<E: Env>(
 ) -> Result<Value, Error<E::GetVariableError, E::AssignVariableError>> {
     match env.get_variable(name) {
         Ok(None) => Ok(Value::Integer(0)),
-        // TODO Parse non-decimal integer and float
-        Ok(Some(value)) => match value.parse() {
-            Ok(number) => Ok(Value::Integer(number)),
-            Err(_) => Err(Error {
+        // TODO Parse float
+        Ok(Some(value)) => match parse_variable_value(value) {
+            Some(number) => Ok(Value::Integer(number)),
+            None => Err(Error {
                 cause: EvalError::InvalidVariableValue(value.to_string()),
                 location: location.clone(),
             }),
